@@ -1,39 +1,1192 @@
 //! Property monitors that need their own state or their own step kinds (everything that is not
-//! part of the core simulator loop in world.rs).
-use crate::ops::Effect;
-use crate::prog::Step;
+//! part of the core simulator loop in world.rs): C05, C06, C07, C08, C13, C14, C15.
+use crate::dump::*;
+use crate::model::*;
+use crate::ops::{Effect, Item};
+use crate::prog::{RepCfg, Step};
+use crate::util::catch;
 use crate::world::*;
-use yrs::StateVector;
+use std::collections::{BTreeMap, HashMap, HashSet};
+use yrs::updates::decoder::Decode;
+use yrs::updates::encoder::{Encode, Encoder, EncoderV1, EncoderV2};
+use yrs::{Assoc, Doc, IdSet, IndexedSequence, ReadTxn, Snapshot, StateVector, StickyIndex, Transact, Update};
+
+/// What a transaction may change: visible content, integrated units, delete set.
+#[derive(Clone, PartialEq, Debug)]
+pub struct Finger {
+    pub dump: String,
+    pub units: usize,
+    pub ds: IdSet,
+}
+
+pub fn finger(doc: &Doc, roots: &Roots) -> Finger {
+    let txn = doc.transact();
+    let blocks = yrs::verif::store_blocks(&txn);
+    Finger { dump: dump_doc(roots, &txn), units: integrated_units(&blocks).len(), ds: txn.snapshot().delete_set }
+}
+
+pub struct Follower {
+    pub doc: Doc,
+    pub roots: Roots,
+}
+
+impl Follower {
+    pub fn new(id: u64, gc: bool) -> Follower {
+        let doc = make_doc(id, gc, false, false);
+        let roots = Roots::of(&doc);
+        Follower { doc, roots }
+    }
+    pub fn dump(&self) -> String {
+        dump_doc(&self.roots, &self.doc.transact())
+    }
+    pub fn apply(&self, bytes: &[u8], v2: bool) -> Result<(), String> {
+        let u = if v2 { Update::decode_v2(bytes) } else { Update::decode_v1(bytes) }.map_err(|e| format!("decode: {}", e))?;
+        let doc = self.doc.clone();
+        match catch(move || doc.transact_mut().apply_update(u)) {
+            Err(p) => Err(format!("panic: {}", p)),
+            Ok(Err(e)) => Err(format!("apply: {}", e)),
+            Ok(Ok(())) => Ok(()),
+        }
+    }
+}
+
+pub struct SnapRec {
+    pub r: usize,
+    pub snap: Snapshot,
+    pub dump: String,
+    pub gapfree: bool,
+    pub step: usize,
+}
+
+pub struct StickyRec {
+    pub c: String,
+    pub bid: yrs::BranchID,
+    pub v1: Vec<u8>,
+    pub json: String,
+    pub after: bool,
+    /// anchor unit (None for start/end-of-collection indexes)
+    pub anchor: Option<Uid>,
+    pub label: String,
+    /// for indexes without an anchor: true = end of collection, false = start
+    pub at_end: bool,
+    pub created_on: usize,
+}
+
+/// One write to a (container, key) register.
+pub struct LwwWrite {
+    pub c: String,
+    pub key: String,
+    pub label: String,
+    pub uid: Uid,
+    /// writes (by index into `writes`) the author had integrated when it wrote this one
+    pub ctx: HashSet<Uid>,
+}
 
 #[derive(Default)]
-pub struct Ext {}
+pub struct Ext {
+    pub f1: Option<Follower>,
+    pub f2: Option<Follower>,
+    pub pre: Option<Finger>,
+    pub pre_dup: Option<(usize, Finger)>,
+    pub twins: Vec<Follower>,
+    /// true: twins follow the shadowed replica's whole event stream (used when formatting
+    /// clean-up is on somewhere); false: twins are handed the same payloads + local events
+    pub twins_follow_events: bool,
+    pub snaps: Vec<SnapRec>,
+    pub stickies: Vec<StickyRec>,
+    pub writes: Vec<LwwWrite>,
+    /// nested containers: id -> unit of the item holding them
+    pub nested: HashMap<String, Uid>,
+    pub lww_concurrent: bool,
+    /// the author's own clock before its current local transaction
+    pub clock_before: u32,
+    pub lww_write_vs_remove: bool,
+}
 
-pub fn init(_w: &mut World) {}
+pub fn init(w: &mut World) {
+    if w.mon.c07 {
+        w.ext.f1 = Some(Follower::new(800_001, true));
+        w.ext.f2 = Some(Follower::new(800_002, false));
+    }
+    if w.mon.c15 {
+        let cfgs: Vec<RepCfg> = w.reps.iter().map(|r| r.cfg.clone()).collect();
+        w.ext.twins_follow_events = cfgs.iter().any(|c| c.cleanup);
+        for (i, c) in cfgs.iter().enumerate() {
+            // passive twin: opposite gc setting, no edits of its own, formatting clean-up off (its
+            // clean-up deletions would never reach the replica it shadows)
+            let doc = make_doc(700_000 + i as u64, !c.gc, c.bytes, false);
+            let roots = Roots::of(&doc);
+            w.ext.twins.push(Follower { doc, roots });
+        }
+    }
+}
 
-pub fn c07_events(_w: &mut World, _r: usize, _v1: &[Vec<u8>], _v2: &[Vec<u8>]) -> Result<(), Violation> {
+fn tail(w: &World) -> String {
+    w.tail(6)
+}
+
+fn v<T>(w: &World, prop: &'static str, kind: &str, detail: String) -> Result<T, Violation> {
+    viol(prop, kind, format!("{} ;; log tail: {}", detail, tail(w)))
+}
+
+/// Called before every transaction (local edit, delivery, forced gc) on replica `r`.
+pub fn pre_txn(w: &mut World, r: usize) {
+    if w.mon.c05 {
+        let own = yrs::ClientID::new(w.reps[r].cfg.id);
+        let txn = w.reps[r].doc.transact();
+        w.ext.clock_before = yrs::verif::store_blocks(&txn).iter().filter(|b| b.id.client == own).map(|b| b.id.clock + b.len).max().unwrap_or(0);
+    }
+    if w.mon.c07 && r == 0 {
+        w.ext.pre = Some(finger(&w.reps[0].doc, &w.reps[0].roots));
+    }
+}
+
+/// C07: called with the events of exactly one transaction of replica `r`.
+pub fn c07_events(w: &mut World, r: usize, v1: &[Vec<u8>], v2: &[Vec<u8>]) -> Result<(), Violation> {
+    if r != 0 {
+        return Ok(());
+    }
+    let id = w.reps[0].cfg.id;
+    if v1.len() != v2.len() {
+        return v(w, "C07", "event-count-mismatch", format!("one transaction of r{} emitted {} v1 and {} v2 update events", id, v1.len(), v2.len()));
+    }
+    if v1.len() > 1 {
+        return v(w, "C07", "multiple-events", format!("one transaction of r{} emitted {} update events per encoding", id, v1.len()));
+    }
+    w.cnt.inc("c07_transactions");
+    if let Some(pre) = w.ext.pre.take() {
+        let post = finger(&w.reps[0].doc, &w.reps[0].roots);
+        if pre == post && !v1.is_empty() {
+            return v(w, "C07", "event-without-change", format!("a transaction of r{} that changed nothing (content, integrated units, delete set) emitted an update", id));
+        }
+        if pre != post && v1.is_empty() {
+            let what = if pre.dump != post.dump { "content" } else if pre.units != post.units { "integrated blocks" } else { "the delete set" };
+            return v(w, "C07", &format!("change-without-event:{}", what.replace(' ', "-")), format!("a transaction of r{} changed {} but emitted no update event", id, what));
+        }
+        if !v1.is_empty() {
+            w.cnt.inc("c07_changing_transactions");
+        }
+    }
+    for (i, bytes) in v1.iter().enumerate() {
+        if let Err(e) = w.ext.f1.as_ref().unwrap().apply(bytes, false) {
+            return v(w, "C07", &format!("follower-v1-{}", e.split(':').next().unwrap_or("")), format!("follower cannot apply the v1 update event: {}", e));
+        }
+        if let Err(e) = w.ext.f2.as_ref().unwrap().apply(&v2[i], true) {
+            return v(w, "C07", &format!("follower-v2-{}", e.split(':').next().unwrap_or("")), format!("follower cannot apply the v2 update event: {}", e));
+        }
+        w.cnt.inc("c07_events");
+    }
+    let l = w.reps[0].dump();
+    let d1 = w.ext.f1.as_ref().unwrap().dump();
+    let d2 = w.ext.f2.as_ref().unwrap().dump();
+    w.cnt.add("c07_follower_comparisons", 2);
+    let gapped = has_skip(&yrs::verif::store_blocks(&w.reps[0].doc.transact()));
+    if gapped {
+        w.cnt.inc("c07_comparisons_while_leader_has_gap");
+    }
+    if l != d1 {
+        return v(w, "C07", "follower-v1-differs", format!("the follower fed by the v1 event stream differs from the leader after a transaction (leader has gap: {}):\n   L {}\n   F {}", gapped, l, d1));
+    }
+    if l != d2 {
+        return v(w, "C07", "follower-v2-differs", format!("the follower fed by the v2 event stream differs from the leader after a transaction (leader has gap: {}):\n   L {}\n   F {}", gapped, l, d2));
+    }
     Ok(())
 }
 
-pub fn after_txn(_w: &mut World, _r: usize, _effects: &[Effect], _emitted: usize, _before: Option<String>) -> Result<(), Violation> {
+/// Records map writes / nested containers after a local transaction (C05), feeds twins (C15).
+pub fn after_txn(w: &mut World, r: usize, effects: &[Effect], _emitted: usize, _before: Option<String>) -> Result<(), Violation> {
+    if w.mon.c05 {
+        let txn = w.reps[r].doc.transact();
+        let integ = integrated_units(&yrs::verif::store_blocks(&txn));
+        let mut nested: Vec<&Item> = vec![];
+        // writes of this transaction per register, in call order
+        let mut per_reg: Vec<((String, String), Vec<String>)> = vec![];
+        for e in effects {
+            match e {
+                Effect::MapSet { c, key, item } => {
+                    let label = match item {
+                        Item::Prim(l) => l.clone(),
+                        Item::Nested(id, _) => format!("#{}", id),
+                        Item::Doc(g) => format!("<D {}>", g),
+                    };
+                    nested.push(item);
+                    let k = (c.clone(), key.clone());
+                    match per_reg.iter_mut().find(|x| x.0 == k) {
+                        Some(x) => x.1.push(label),
+                        None => per_reg.push((k, vec![label])),
+                    }
+                }
+                Effect::SeqInsert { items, .. } => nested.extend(items.iter()),
+                Effect::TextEmbed { item, .. } => nested.push(item),
+                _ => {}
+            }
+        }
+        // the items this transaction created, from the author's store (parent and key are resolved
+        // there), in clock order = call order
+        let own = w.reps[r].cfg.id;
+        let from = w.ext.clock_before;
+        let created: Vec<yrs::verif::BlockInfo> = yrs::verif::store_blocks(&txn).into_iter().filter(|b| b.id.client.get() == own && b.id.clock + b.len > from).collect();
+        for ((c, key), labels) in per_reg {
+            let mut fresh: Vec<Uid> = vec![];
+            for b in created.iter() {
+                let pc = match &b.parent {
+                    yrs::verif::ParentInfo::Root(n) => format!("'{}'", n),
+                    yrs::verif::ParentInfo::Nested(id) => format!("<{}#{}>", id.client.get(), id.clock),
+                    yrs::verif::ParentInfo::Inherit => String::new(),
+                };
+                if b.kind == 0 && pc == c && b.parent_sub.as_deref() == Some(key.as_str()) {
+                    for k in b.id.clock.max(from)..b.id.clock + b.len {
+                        fresh.push((own, k));
+                    }
+                }
+            }
+            if fresh.len() != labels.len() {
+                w.cnt.inc("c05_writes_unmapped");
+                continue;
+            }
+            for (label, u) in labels.into_iter().zip(fresh.into_iter()) {
+                let mut ctx: HashSet<Uid> = w.ext.writes.iter().filter(|x| x.c == c && x.key == key && integ.contains(&x.uid)).map(|x| x.uid).collect();
+                ctx.remove(&u);
+                w.ext.writes.push(LwwWrite { c: c.clone(), key: key.clone(), label, uid: u, ctx });
+                w.cnt.inc("c05_writes_recorded");
+            }
+        }
+        for it in nested {
+            if let Item::Nested(id, _) = it {
+                // "<client#clock>" is the debug form of a nested BranchID
+                if let Some(u) = parse_nested_id(id) {
+                    w.ext.nested.insert(id.clone(), u);
+                }
+            }
+        }
+    }
     Ok(())
 }
 
-pub fn relay_payload(_w: &mut World, _from: usize, _to: usize, _form: u8, _sv: &StateVector, _bytes: &[u8]) -> Result<(), Violation> {
+pub fn parse_nested_id(id: &str) -> Option<Uid> {
+    let s = id.trim_start_matches('<').trim_end_matches('>');
+    let (a, b) = s.split_once('#')?;
+    Some((a.parse().ok()?, b.parse().ok()?))
+}
+
+fn branch_id_of(rep: &Replica, c: &str) -> Option<yrs::BranchID> {
+    let txn = rep.doc.transact();
+    for (h, _) in live_types(&rep.roots, &txn) {
+        if format!("{:?}", h.id()) == c {
+            return Some(h.id());
+        }
+    }
+    None
+}
+
+/// C15 twin feeding: called for every payload applied to `r` and every local event of `r`.
+pub fn twin_feed(w: &mut World, r: usize, bytes: &[u8], v2: bool, event: bool, local: bool) -> Result<(), Violation> {
+    if !w.mon.c15 {
+        return Ok(());
+    }
+    // event-following twins take every update event of r and nothing else; payload twins take the
+    // payloads r is handed plus r's local transactions
+    if w.ext.twins_follow_events != event && !(event && local) {
+        return Ok(());
+    }
+    if w.ext.twins_follow_events && !event {
+        return Ok(());
+    }
+    w.cnt.inc(if w.ext.twins_follow_events { "c15_twin_feeds_event_stream" } else { "c15_twin_feeds_same_payloads" });
+    if let Err(e) = w.ext.twins[r].apply(bytes, v2) {
+        return v(w, "C15", &format!("twin-{}", e.split(':').next().unwrap_or("")), format!("the twin of r{} (opposite gc setting) cannot apply what r{} applied: {}", w.reps[r].cfg.id, w.reps[r].cfg.id, e));
+    }
     Ok(())
 }
 
-pub fn exec_ext(_w: &mut World, _step: &Step, _touched: &mut Vec<usize>) -> Result<(), Violation> {
+/// C02(d)/C06: what a relay payload must carry.
+pub fn relay_payload(w: &mut World, from: usize, to: usize, form: u8, sv: &StateVector, bytes: &[u8]) -> Result<(), Violation> {
+    if !(w.mon.c02 || w.mon.c06) {
+        return Ok(());
+    }
+    let u = match if form % 2 == 1 { Update::decode_v2(bytes) } else { Update::decode_v1(bytes) } {
+        Ok(u) => u,
+        Err(_) => return Ok(()), // reported by apply()
+    };
+    let blocks = yrs::verif::update_blocks(&u);
+    let carried = integrated_units(&blocks);
+    let src = &w.reps[from];
+    let txn = src.doc.transact();
+    let integ = integrated_units(&yrs::verif::store_blocks(&txn));
+    drop(txn);
+    if form < 2 && w.mon.c02 {
+        // full-state export must carry integrated *and* stashed content at or above the vector
+        for u in src.model.handed.keys() {
+            if u.1 >= sv.get(&yrs::ClientID::new(u.0)) && !carried.contains(u) {
+                let d = format!("encode_state_as_update of r{} (has stash: {}) does not carry unit {:?} it was handed (requested from {:?})", src.cfg.id, src.doc.transact().has_missing_updates(), u, sv);
+                return v(w, "C02", "export-drops-content", d);
+            }
+        }
+        w.cnt.inc("c02_exports_checked");
+    }
+    if w.mon.c06 {
+        for u in integ.iter() {
+            if u.1 >= sv.get(&yrs::ClientID::new(u.0)) && !carried.contains(u) {
+                let d = format!("{} of r{} towards r{} omits unit {:?} which the sender has integrated (requested from {:?}; sender has gap: {})", if form < 2 { "encode_state_as_update" } else { "encode_diff" }, src.cfg.id, w.reps[to].cfg.id, u, sv, has_skip(&yrs::verif::store_blocks(&src.doc.transact())));
+                return v(w, "C06", "diff-omits-integrated", d);
+            }
+        }
+        w.cnt.inc("c06_payloads_checked");
+    }
     Ok(())
 }
 
-pub fn observe_ext(_w: &mut World, _r: usize) -> Result<(), Violation> {
+/// C06: after B applied what A encoded for it, B must contain everything A had integrated.
+pub fn after_relay(w: &mut World, from: usize, to: usize, form: u8) -> Result<(), Violation> {
+    if !w.mon.c06 {
+        return Ok(());
+    }
+    // Population split: encode_state_as_update of a sender that itself holds a stash merges the
+    // stash into the export; a still-blocked stashed block then makes the receiver stash every
+    // later block of that client too (Yjs-inherited), including ones the sender had integrated.
+    let pop = if form < 2 && w.reps[from].doc.transact().has_missing_updates() { ":full-state-of-sender-with-stash" } else { "" };
+    if !pop.is_empty() {
+        w.cnt.inc("c06_exchanges_full_state_of_sender_with_stash");
+    }
+    let (a, b) = (&w.reps[from], &w.reps[to]);
+    let (ta, tb) = (a.doc.transact(), b.doc.transact());
+    let ia = integrated_units(&yrs::verif::store_blocks(&ta));
+    let ib = integrated_units(&yrs::verif::store_blocks(&tb));
+    let (sa, sb) = (ta.state_vector(), tb.state_vector());
+    let (da, db) = (ta.snapshot().delete_set, tb.snapshot().delete_set);
+    drop(ta);
+    drop(tb);
+    w.cnt.inc("c06_exchanges");
+    if let Some(u) = ia.iter().find(|u| !ib.contains(u)) {
+        return v(w, "C06", &format!("sync-incomplete{}", pop), format!("after applying r{}'s diff r{} still lacks unit {:?} that r{} has integrated", a.cfg.id, b.cfg.id, u, a.cfg.id));
+    }
+    if !sv_ge(&sb, &sa) {
+        return v(w, "C06", &format!("sv-not-dominating{}", pop), format!("after the exchange r{}'s vector {:?} does not dominate r{}'s {:?}", b.cfg.id, sb, a.cfg.id, sa));
+    }
+    if let Some(u) = idset_units(&da).iter().find(|u| !db.contains(&yrs::ID::new(yrs::ClientID::new(u.0), u.1))) {
+        return v(w, "C06", &format!("deletion-not-transferred{}", pop), format!("after the exchange unit {:?} is deleted at r{} but not at r{}", u, a.cfg.id, b.cfg.id));
+    }
     Ok(())
 }
 
-pub fn finish_ext(_w: &mut World) -> Result<(), Violation> {
+fn fresh(id: u64) -> Follower {
+    Follower::new(id, false)
+}
+
+fn clone_of(w: &World, r: usize, id: u64) -> Result<Follower, String> {
+    let f = fresh(id);
+    let full = w.reps[r].doc.transact().encode_state_as_update_v1(&StateVector::default());
+    f.apply(&full, false)?;
+    Ok(f)
+}
+
+/// Step kinds beyond the core ones.
+pub fn exec_ext(w: &mut World, step: &Step, touched: &mut Vec<usize>) -> Result<(), Violation> {
+    let n = w.reps.len();
+    match step {
+        Step::Gc { r, ds } => {
+            let r = (*r as usize) % n;
+            let before = w.reps[r].dump();
+            w.log.push(format!("force gc r{} ({})", w.reps[r].cfg.id, if *ds { "with delete set" } else { "all" }));
+            pre_txn(w, r);
+            let doc = w.reps[r].doc.clone();
+            let with_ds = *ds;
+            let res = catch(move || {
+                let dset = doc.transact().snapshot().delete_set;
+                let mut txn = doc.transact_mut();
+                if with_ds {
+                    txn.gc(Some(&dset));
+                } else {
+                    txn.gc(None);
+                }
+            });
+            if let Err(p) = res {
+                return v(w, w.mon.prop, &format!("panic:{}", p.split(' ').next().unwrap_or("")), format!("panic in forced gc: {}", p));
+            }
+            w.collect(r, true)?;
+            w.cnt.inc("forced_gc");
+            // snapshots of a document that was collected explicitly are void by the user's own choice
+            w.ext.snaps.retain(|s| s.r != r);
+            if w.mon.c15 {
+                let after = w.reps[r].dump();
+                if after != before {
+                    return v(w, "C15", "forced-gc-visible", format!("forced gc changed the content of r{}:\n   before {}\n   after  {}", w.reps[r].cfg.id, before, after));
+                }
+                rebuild_check(w, r)?;
+            }
+            touched.push(r);
+        }
+        Step::Snap { r } => {
+            if !w.mon.c13 {
+                return Ok(());
+            }
+            let r = (*r as usize) % n;
+            let rep = &w.reps[r];
+            let txn = rep.doc.transact();
+            if rep.cfg.gc {
+                // a collecting document must refuse
+                let snap = txn.snapshot();
+                let mut e = EncoderV1::new();
+                let res = txn.encode_state_from_snapshot(&snap, &mut e);
+                drop(txn);
+                w.cnt.inc("c13_gc_refusals_checked");
+                if res.is_ok() {
+                    return v(w, "C13", "gc-doc-does-not-refuse", format!("encode_state_from_snapshot on gc-enabled r{} returned Ok", w.reps[r].cfg.id));
+                }
+                return Ok(());
+            }
+            let blocks = yrs::verif::store_blocks(&txn);
+            let gapfree = !has_skip(&blocks) && !txn.has_missing_updates();
+            let snap = txn.snapshot();
+            let dump = dump_doc(&rep.roots, &txn);
+            drop(txn);
+            // a snapshot survives its own encoding
+            let s1 = Snapshot::decode_v1(&snap.encode_v1());
+            let s2 = Snapshot::decode_v2(&snap.encode_v2());
+            if s1.as_ref().ok() != Some(&snap) || s2.as_ref().ok() != Some(&snap) {
+                return v(w, "C13", "snapshot-roundtrip", format!("snapshot of r{} does not survive encode/decode (v1 ok: {}, v2 ok: {})", w.reps[r].cfg.id, s1.as_ref().ok() == Some(&snap), s2.as_ref().ok() == Some(&snap)));
+            }
+            w.log.push(format!("snapshot r{} (gap-free: {})", w.reps[r].cfg.id, gapfree));
+            w.cnt.inc(if gapfree { "c13_snapshots" } else { "c13_snapshots_over_gap" });
+            let step_no = w.step_no;
+            w.ext.snaps.push(SnapRec { r, snap, dump, gapfree, step: step_no });
+        }
+        Step::Restore { sel } => {
+            if !w.mon.c13 || w.ext.snaps.is_empty() {
+                return Ok(());
+            }
+            let k = (*sel as usize) % w.ext.snaps.len();
+            restore_check(w, k)?;
+        }
+        Step::Sticky { r, ty, pos, after, edge } => {
+            if !w.mon.c14 {
+                return Ok(());
+            }
+            let r = (*r as usize) % n;
+            create_sticky(w, r, *ty, *pos, *after, *edge)?;
+        }
+        Step::Probe { a, b, x, y } => {
+            let a = (*a as usize) % n;
+            let b = (*b as usize) % n;
+            if w.mon.c06 {
+                probe_sync(w, a, b, *x, touched)?;
+            }
+            if w.mon.c08 {
+                probe_algebra(w, a, *x, *y)?;
+            }
+        }
+        _ => {}
+    }
     Ok(())
 }
 
-pub fn nontrivial_ext(_prop: &str, _w: &World) -> bool {
-    false
+/// C15: a document rebuilt from a replica's full state equals it.
+fn rebuild_check(w: &mut World, r: usize) -> Result<(), Violation> {
+    if w.reps[r].doc.transact().has_missing_updates() {
+        // the export carries the stash too; the rebuilt document may legitimately stash more of a
+        // client's blocks behind the blocked one than the source did (see C02's lower bound)
+        w.cnt.inc("c15_rebuilds_skipped_source_has_stash");
+        return Ok(());
+    }
+    let v2 = w.step_no % 2 == 0;
+    let txn = w.reps[r].doc.transact();
+    let full = if v2 { txn.encode_state_as_update_v2(&StateVector::default()) } else { txn.encode_state_as_update_v1(&StateVector::default()) };
+    drop(txn);
+    let f = Follower::new(600_000, w.step_no % 3 == 0);
+    if let Err(e) = f.apply(&full, v2) {
+        return v(w, "C15", &format!("rebuild-{}", e.split(':').next().unwrap_or("")), format!("a document rebuilt from r{}'s full state: {}", w.reps[r].cfg.id, e));
+    }
+    let (d, e) = (w.reps[r].dump(), f.dump());
+    w.cnt.inc("c15_rebuilds");
+    if d != e {
+        return v(w, "C15", "rebuild-differs", format!("a document rebuilt from the full state of r{} (gc {}) differs:\n   {}\n   {}", w.reps[r].cfg.id, w.reps[r].cfg.gc, d, e));
+    }
+    Ok(())
+}
+
+/// C13: restore one recorded snapshot (v1 and v2) and compare with the dump recorded then.
+fn restore_check(w: &mut World, k: usize) -> Result<(), Violation> {
+    let (r, gapfree, step) = (w.ext.snaps[k].r, w.ext.snaps[k].gapfree, w.ext.snaps[k].step);
+    let suffix = if gapfree { "" } else { ":source-had-gap" };
+    for v2 in [false, true] {
+        let doc = w.reps[r].doc.clone();
+        let snap = w.ext.snaps[k].snap.clone();
+        let res = catch(move || {
+            let txn = doc.transact();
+            if v2 {
+                let mut e = EncoderV2::new();
+                txn.encode_state_from_snapshot(&snap, &mut e).map(|_| e.to_vec())
+            } else {
+                let mut e = EncoderV1::new();
+                txn.encode_state_from_snapshot(&snap, &mut e).map(|_| e.to_vec())
+            }
+        });
+        let bytes = match res {
+            Err(p) => return v(w, "C13", &format!("restore-panic{}", suffix), format!("encode_state_from_snapshot panicked: {}", p)),
+            Ok(Err(e)) => return v(w, "C13", &format!("restore-encode-error{}", suffix), format!("encode_state_from_snapshot of skip_gc r{} failed: {}", w.reps[r].cfg.id, e)),
+            Ok(Ok(b)) => b,
+        };
+        let f = fresh(500_000 + v2 as u64);
+        if let Err(e) = f.apply(&bytes, v2) {
+            return v(w, "C13", &format!("restore-{}{}", e.split(':').next().unwrap_or(""), suffix), format!("state encoded from the snapshot taken at step {} (v{}) cannot be applied to an empty document: {}", step, if v2 { 2 } else { 1 }, e));
+        }
+        let got = f.dump();
+        w.cnt.inc(if gapfree { "c13_restores" } else { "c13_restores_over_gap" });
+        if got != w.ext.snaps[k].dump {
+            let d = format!("snapshot of r{} taken at step {} restored (v{}) at step {} differs:\n   then {}\n   now  {}", w.reps[r].cfg.id, step, if v2 { 2 } else { 1 }, w.step_no, w.ext.snaps[k].dump, got);
+            return v(w, "C13", &format!("restore-differs{}", suffix), d);
+        }
+        if f.doc.transact().has_missing_updates() && gapfree {
+            return v(w, "C13", "restore-pending", format!("restored document reports missing updates (snapshot of step {})", step));
+        }
+    }
+    Ok(())
+}
+
+/// Visible elements of a sequence with unit ids and widths in the replica's offset unit, plus the
+/// order of *all* units (tombstones included) from hook H2.
+pub struct Layout {
+    pub labels: Vec<String>,
+    pub uids: Vec<Uid>,
+    pub widths: Vec<u32>,
+    pub all: Vec<Uid>,
+}
+
+pub fn layout(rep: &Replica, h: &Handle) -> Option<Layout> {
+    use yrs::{Array, XmlFragment};
+    let txn = rep.doc.transact();
+    let (labels, clocks, widths): (Vec<String>, Vec<u32>, Vec<u32>) = match h {
+        Handle::Text(_) | Handle::XText(_) => {
+            let t = h.as_text().unwrap();
+            let (l, c) = text_labels(&t, &txn);
+            let units = text_units(&t, &txn);
+            let wd = units.iter().map(|u| u.len(rep.kind)).collect();
+            (l, c, wd)
+        }
+        Handle::Array(a) => {
+            let l: Vec<String> = a.iter(&txn).map(|o| label_of_out(&o)).collect();
+            let k = l.len();
+            (l, vec![1; k], vec![1; k])
+        }
+        Handle::XFrag(f) => {
+            let l: Vec<String> = f.children(&txn).map(|o| format!("#{:?}", o.id())).collect();
+            let k = l.len();
+            (l, vec![1; k], vec![1; k])
+        }
+        Handle::XElem(f) => {
+            let l: Vec<String> = f.children(&txn).map(|o| format!("#{:?}", o.id())).collect();
+            let k = l.len();
+            (l, vec![1; k], vec![1; k])
+        }
+        Handle::Map(_) => return None,
+    };
+    let items = yrs::verif::branch_items(&txn, &h.id())?;
+    let mut vis = vec![];
+    let mut all = vec![];
+    for it in items.iter() {
+        for k in 0..it.len {
+            let u = (it.id.client.get(), it.id.clock + k);
+            all.push(u);
+            if !it.deleted && it.countable {
+                vis.push(u);
+            }
+        }
+    }
+    let total: u32 = clocks.iter().sum();
+    if total as usize != vis.len() {
+        return None;
+    }
+    let mut uids = vec![];
+    let mut p = 0usize;
+    for c in &clocks {
+        uids.push(vis[p]);
+        p += *c as usize;
+    }
+    Some(Layout { labels, uids, widths, all })
+}
+
+fn create_sticky(w: &mut World, r: usize, ty: u32, pos: u32, after: bool, edge: u8) -> Result<(), Violation> {
+    let rep = &w.reps[r];
+    let txn = rep.doc.transact();
+    let types: Vec<Handle> = live_types(&rep.roots, &txn).into_iter().map(|x| x.0).filter(|h| h.kind() != "map").collect();
+    drop(txn);
+    if types.is_empty() {
+        return Ok(());
+    }
+    let h = types[(ty as usize) % types.len()].clone();
+    let Some(lay) = layout(rep, &h) else { return Ok(()) };
+    let n = lay.labels.len();
+    let assoc = if after { Assoc::After } else { Assoc::Before };
+    let c = format!("{:?}", h.id());
+    let txn = rep.doc.transact();
+    // position classes: start, end, inside
+    let p = match edge % 6 {
+        0 => 0,
+        1 => n,
+        _ => (pos as usize) % (n + 1),
+    };
+    let off: u32 = lay.widths[..p].iter().sum();
+    let (si, anchor, label, at_end) = if n == 0 {
+        // start/end of an empty collection
+        let si = match &h {
+            Handle::Text(t) => StickyIndex::from_type(&txn, t, assoc),
+            Handle::XText(t) => StickyIndex::from_type(&txn, t, assoc),
+            Handle::Array(t) => StickyIndex::from_type(&txn, t, assoc),
+            Handle::XFrag(t) => StickyIndex::from_type(&txn, t, assoc),
+            Handle::XElem(t) => StickyIndex::from_type(&txn, t, assoc),
+            Handle::Map(_) => unreachable!(),
+        };
+        // `Assoc::After` on the type = its end, `Before` = its start
+        (Some(si), None, String::new(), after)
+    } else {
+        let si = match &h {
+            Handle::Text(t) => t.sticky_index(&txn, off, assoc),
+            Handle::XText(t) => t.sticky_index(&txn, off, assoc),
+            Handle::Array(t) => t.sticky_index(&txn, off, assoc),
+            Handle::XFrag(t) => t.sticky_index(&txn, off, assoc),
+            Handle::XElem(t) => t.sticky_index(&txn, off, assoc),
+            Handle::Map(_) => unreachable!(),
+        };
+        if after && p == n {
+            // nothing to anchor on: a refused creation is not a violation (DESIGN C14 F)
+            drop(txn);
+            w.cnt.inc("c14_refused_at_end");
+            if si.is_some() {
+                w.cnt.inc("c14_created_at_end");
+            }
+            return Ok(());
+        }
+        if !after && p == 0 {
+            (si, None, String::new(), false)
+        } else {
+            let q = if after { p } else { p - 1 };
+            (si, Some(lay.uids[q]), lay.labels[q].clone(), false)
+        }
+    };
+    drop(txn);
+    let Some(si) = si else {
+        let d = format!("sticky_index({}, {:?}) on {} of r{} ({:?}, {} elements) returned None", off, assoc, c, w.reps[r].cfg.id, w.reps[r].kind, n);
+        return v(w, "C14", "creation-refused", d);
+    };
+    let v1 = si.encode_v1();
+    let json = serde_json::to_string(&si).unwrap_or_default();
+    w.log.push(format!("sticky r{} {} index {} {:?} anchor {} {:?} -> {:?}", w.reps[r].cfg.id, c, off, assoc, label, anchor, si));
+    w.cnt.inc("c14_indexes_created");
+    w.ext.stickies.push(StickyRec { c, bid: h.id(), v1, json, after, anchor, label, at_end, created_on: r });
+    Ok(())
+}
+
+fn check_stickies(w: &mut World, r: usize) -> Result<(), Violation> {
+    if w.ext.stickies.is_empty() {
+        return Ok(());
+    }
+    let rep = &w.reps[r];
+    let txn = rep.doc.transact();
+    let live: HashMap<String, Handle> = live_types(&rep.roots, &txn).into_iter().map(|(h, _)| (format!("{:?}", h.id()), h)).collect();
+    let integ = integrated_units(&yrs::verif::store_blocks(&txn));
+    drop(txn);
+    let mut lays: HashMap<String, Option<Layout>> = HashMap::new();
+    let mut checks = 0;
+    let mut bad: Option<(String, String)> = None;
+    for s in w.ext.stickies.iter() {
+        let Some(h) = live.get(&s.c) else { continue };
+        // serialisation: binary and JSON forms must give back the same index
+        let si = match StickyIndex::decode_v1(&s.v1) {
+            Ok(x) => x,
+            Err(e) => {
+                bad = Some(("serialization".into(), format!("sticky index does not decode: {}", e)));
+                break;
+            }
+        };
+        let sj: Result<StickyIndex, _> = serde_json::from_str(&s.json);
+        match sj {
+            Ok(j) if j == si => {}
+            other => {
+                bad = Some(("serialization".into(), format!("JSON form {} gives {:?}, binary form gives {:?}", s.json, other.ok(), si)));
+                break;
+            }
+        }
+        if si.assoc != (if s.after { Assoc::After } else { Assoc::Before }) {
+            bad = Some(("serialization".into(), "association lost in serialisation".into()));
+            break;
+        }
+        let lay = lays.entry(s.c.clone()).or_insert_with(|| layout(rep, h));
+        let Some(lay) = lay else { continue };
+        let total: u32 = lay.widths.iter().sum();
+        let want: u32 = match s.anchor {
+            None => {
+                if s.at_end {
+                    total
+                } else {
+                    0
+                }
+            }
+            Some(a) => {
+                if !integ.contains(&a) {
+                    continue; // this replica does not know the anchoring element yet
+                }
+                match lay.uids.iter().position(|u| *u == a) {
+                    Some(q) => lay.widths[..q].iter().sum::<u32>() + if s.after { 0 } else { lay.widths[q] },
+                    None => {
+                        // anchor deleted: after all visible elements that precede it
+                        let Some(ai) = lay.all.iter().position(|u| *u == a) else { continue };
+                        let visible: HashSet<&Uid> = lay.uids.iter().collect();
+                        match lay.all[ai..].iter().find(|u| visible.contains(u)) {
+                            Some(next) => {
+                                let q = lay.uids.iter().position(|u| u == next).unwrap();
+                                lay.widths[..q].iter().sum::<u32>()
+                            }
+                            None => total,
+                        }
+                    }
+                }
+            }
+        };
+        let txn = rep.doc.transact();
+        let got = catch(|| si.get_offset(&txn).map(|o| o.index));
+        drop(txn);
+        checks += 1;
+        // population: was a byte-offset replica involved (creating or resolving) and did the history
+        // produce non-ASCII text at all (then tombstones may hold multi-byte characters too)
+        let bytes_involved = rep.kind == yrs::OffsetKind::Bytes || w.reps[s.created_on].kind == yrs::OffsetKind::Bytes;
+        let ascii_only = w.ascii && w.nchars <= 62;
+        let is_text = matches!(h, Handle::Text(_) | Handle::XText(_));
+        let cls = format!("{}{}", if bytes_involved { "bytes" } else { "utf16" }, if ascii_only || !is_text { "" } else { "-nonascii-text" });
+        match got {
+            Err(p) => {
+                bad = Some((format!("panic:{}", p.split(' ').next().unwrap_or("")), format!("get_offset panicked: {}", p)));
+                break;
+            }
+            Ok(None) => {
+                bad = Some((format!("unresolved:{}", cls), format!("sticky index {:?} (anchor {} {:?}, created on r{}) resolves to None on r{} in {} although the anchor is integrated; expected {}", si, s.label, s.anchor, w.reps[s.created_on].cfg.id, rep.cfg.id, s.c, want)));
+                break;
+            }
+            Ok(Some(g)) => {
+                if g != want {
+                    bad = Some((format!("wrong-offset:{}", cls), format!("sticky index {:?} (anchor {} {:?}, created on r{}) resolves to {} on r{} ({:?}) in {}, expected {} ; visible: {:?}", si, s.label, s.anchor, w.reps[s.created_on].cfg.id, g, rep.cfg.id, rep.kind, s.c, want, lay.labels)));
+                    break;
+                }
+            }
+        }
+    }
+    w.cnt.add("c14_resolutions_checked", checks);
+    if let Some((k, d)) = bad {
+        return v(w, "C14", &k, d);
+    }
+    Ok(())
+}
+
+/// C06: bidirectional exchange to a fixpoint, self-application, re-application of known updates.
+fn probe_sync(w: &mut World, a: usize, b: usize, x: u32, touched: &mut Vec<usize>) -> Result<(), Violation> {
+    // X.encode_diff(X.sv) applied to X changes nothing and emits nothing
+    {
+        let rep = &w.reps[a];
+        let pre = finger(&rep.doc, &rep.roots);
+        let sv = rep.doc.transact().state_vector();
+        let v2 = x % 2 == 0;
+        let bytes = {
+            let txn = rep.doc.transact();
+            match x % 4 {
+                0 => txn.encode_diff_v2(&sv),
+                1 => txn.encode_diff_v1(&sv),
+                2 => txn.encode_state_as_update_v2(&sv),
+                _ => txn.encode_state_as_update_v1(&sv),
+            }
+        };
+        let before_msgs = w.msgs.len();
+        w.log.push(format!("self-apply r{} form {}", w.reps[a].cfg.id, x % 4));
+        w.apply(a, &bytes, v2, "self-diff")?;
+        let post = finger(&w.reps[a].doc, &w.reps[a].roots);
+        w.cnt.inc("c06_self_applications");
+        if pre != post || w.msgs.len() != before_msgs {
+            return v(w, "C06", "self-diff-changes", format!("applying r{}'s own diff against its own state vector changed it (emitted {} updates)", w.reps[a].cfg.id, w.msgs.len() - before_msgs));
+        }
+    }
+    if a == b {
+        return Ok(());
+    }
+    // ping-pong until neither side changes
+    let mut rounds = 0;
+    loop {
+        let fa = finger(&w.reps[a].doc, &w.reps[a].roots);
+        let fb = finger(&w.reps[b].doc, &w.reps[b].roots);
+        for (from, to) in [(a, b), (b, a)] {
+            let form = ((x / 4) as u8 + rounds as u8 + from as u8) % 4;
+            let sv = w.reps[to].doc.transact().state_vector();
+            let bytes = {
+                let txn = w.reps[from].doc.transact();
+                match form {
+                    0 => txn.encode_state_as_update_v1(&sv),
+                    1 => txn.encode_state_as_update_v2(&sv),
+                    2 => txn.encode_diff_v1(&sv),
+                    _ => txn.encode_diff_v2(&sv),
+                }
+            };
+            w.log.push(format!("exchange r{} -> r{} form {}", w.reps[from].cfg.id, w.reps[to].cfg.id, form));
+            relay_payload(w, from, to, form, &sv, &bytes)?;
+            w.apply(to, &bytes, form % 2 == 1, "exchange")?;
+            after_relay(w, from, to, form)?;
+        }
+        rounds += 1;
+        let ga = finger(&w.reps[a].doc, &w.reps[a].roots);
+        let gb = finger(&w.reps[b].doc, &w.reps[b].roots);
+        if ga == fa && gb == fb {
+            break;
+        }
+        if rounds > 8 {
+            return v(w, "C06", "exchange-no-fixpoint", format!("r{} and r{} keep changing after 8 rounds of bidirectional exchange", w.reps[a].cfg.id, w.reps[b].cfg.id));
+        }
+    }
+    w.cnt.max("max_c06_rounds", rounds as u64);
+    w.nonfifo = true;
+    let (da, db) = (w.reps[a].dump(), w.reps[b].dump());
+    let (sa, sb) = (w.reps[a].doc.transact().state_vector(), w.reps[b].doc.transact().state_vector());
+    w.cnt.inc("c06_fixpoints");
+    let pend = w.reps[a].doc.transact().has_missing_updates() || w.reps[b].doc.transact().has_missing_updates();
+    if pend {
+        w.cnt.inc("c06_fixpoints_with_stash");
+    }
+    if da != db {
+        return v(w, "C06", "exchange-not-equal", format!("after bidirectional exchange to a fixpoint r{} and r{} differ (stash present: {}):\n   {}\n   {}", w.reps[a].cfg.id, w.reps[b].cfg.id, pend, da, db));
+    }
+    if !sv_eq(&sa, &sb) && !pend {
+        return v(w, "C06", "exchange-sv-differ", format!("after bidirectional exchange state vectors differ: {:?} vs {:?}", sa, sb));
+    }
+    touched.push(a);
+    touched.push(b);
+    Ok(())
+}
+
+fn apply_all(f: &Follower, msgs: &[&Vec<u8>], v2: bool) -> Result<(), String> {
+    for m in msgs {
+        f.apply(m, v2)?;
+    }
+    Ok(())
+}
+
+fn units_visible(f: &Follower) -> (String, StateVector, bool) {
+    let txn = f.doc.transact();
+    (dump_doc(&f.roots, &txn), txn.state_vector(), txn.has_missing_updates())
+}
+
+/// C08: merged vs sequential, diff vs apply, vector-from-update, v1 vs v2.
+fn probe_algebra(w: &mut World, a: usize, x: u32, y: u32) -> Result<(), Violation> {
+    if w.msgs.len() < 2 {
+        return Ok(());
+    }
+    let mut rng = fastrand::Rng::with_seed((x as u64) << 32 | y as u64);
+    let v2 = rng.bool();
+    // a random multiset of the history's updates (duplicates, out of order, overlapping re-broadcasts)
+    let k = rng.usize(2..=6.min(w.msgs.len() + 1));
+    let mut set: Vec<usize> = (0..k).map(|_| rng.usize(0..w.msgs.len())).collect();
+    if rng.u8(0..4) == 0 {
+        set = (0..w.msgs.len()).collect();
+        rng.shuffle(&mut set);
+    }
+    let inputs: Vec<Vec<u8>> = set.iter().map(|&i| if v2 { w.msgs[i].v2.clone() } else { w.msgs[i].v1.clone() }).collect();
+    let merge = |xs: Vec<Vec<u8>>| catch(|| if v2 { yrs::merge_updates_v2(xs) } else { yrs::merge_updates_v1(xs) });
+    w.log.push(format!("algebra probe merge_v{} {:?}", if v2 { 2 } else { 1 }, set));
+    let merged = match merge(inputs.clone()) {
+        Err(p) => return v(w, "C08", &format!("panic:{}", p.split(' ').next().unwrap_or("")), format!("merge_updates panicked: {}", p)),
+        Ok(Err(e)) => return v(w, "C08", "merge-error", format!("merge_updates failed on updates that decode: {}", e)),
+        Ok(Ok(m)) => m,
+    };
+    // pattern statistics
+    let mut gcforms = false;
+    for i in &set {
+        if let Ok(u) = Update::decode_v1(&w.msgs[*i].v1) {
+            if yrs::verif::update_blocks(&u).iter().any(|b| b.kind == 1 || b.content == 1) {
+                gcforms = true;
+            }
+        }
+    }
+    w.cnt.inc("c08_merges");
+    if gcforms {
+        w.cnt.inc("c08_merges_with_gc_forms");
+    }
+    // other order + nesting must have the same effect
+    let mut alt_in = inputs.clone();
+    rng.shuffle(&mut alt_in);
+    let alt = if alt_in.len() > 2 {
+        let cut = rng.usize(1..alt_in.len());
+        let left = merge(alt_in[..cut].to_vec());
+        match left {
+            Ok(Ok(l)) => {
+                let mut rest = vec![l];
+                rest.extend(alt_in[cut..].iter().cloned());
+                merge(rest)
+            }
+            other => other,
+        }
+    } else {
+        merge(alt_in)
+    };
+    let alt = match alt {
+        Err(p) => return v(w, "C08", &format!("panic:{}", p.split(' ').next().unwrap_or("")), format!("nested merge_updates panicked: {}", p)),
+        Ok(Err(e)) => return v(w, "C08", "merge-error", format!("nested merge_updates failed: {}", e)),
+        Ok(Ok(m)) => m,
+    };
+    let all: Vec<&Vec<u8>> = w.msgs.iter().map(|m| &m.v1).collect();
+    // targets: an empty document and a document with prior state (clone of replica a)
+    for with_state in [false, true] {
+        let mk = |id: u64| -> Result<Follower, String> { if with_state { clone_of(w, a, id) } else { Ok(fresh(id)) } };
+        let (fm, fs, fa) = match (mk(400_001), mk(400_002), mk(400_003)) {
+            (Ok(x), Ok(y), Ok(z)) => (x, y, z),
+            _ => return Ok(()),
+        };
+        if let Err(e) = fm.apply(&merged, v2) {
+            return v(w, "C08", &format!("merged-{}", e.split(':').next().unwrap_or("")), format!("applying the merged update: {}", e));
+        }
+        if let Err(e) = fa.apply(&alt, v2) {
+            return v(w, "C08", &format!("merged-{}", e.split(':').next().unwrap_or("")), format!("applying the re-ordered/nested merged update: {}", e));
+        }
+        if let Err(e) = apply_all(&fs, &inputs.iter().collect::<Vec<_>>(), v2) {
+            return v(w, "C08", &format!("sequential-{}", e.split(':').next().unwrap_or("")), format!("applying the updates one by one: {}", e));
+        }
+        let (dm, sm, pm) = units_visible(&fm);
+        let (ds, ss, ps) = units_visible(&fs);
+        let (da, sa, pa) = units_visible(&fa);
+        w.cnt.inc("c08_comparisons");
+        if !pm && !ps && !gcforms {
+            w.cnt.inc("c08_immediate_equalities");
+            if dm != ds || !sv_eq(&sm, &ss) {
+                return v(w, "C08", "merge-vs-sequential", format!("merge_updates_v{}({:?}) applied to {} differs from applying them one by one:\n   merged     {} {:?}\n   sequential {} {:?}", if v2 { 2 } else { 1 }, set, if with_state { "a document with prior state" } else { "an empty document" }, dm, sm, ds, ss));
+            }
+        }
+        if !pm && !pa && !gcforms && (dm != da || !sv_eq(&sm, &sa)) {
+            return v(w, "C08", "merge-order-dependent", format!("merging {:?} in another order / nesting gives another effect:\n   {} {:?}\n   {} {:?}", set, dm, sm, da, sa));
+        }
+        // complete all three with the whole (causally closed) history: now they must be equal
+        for f in [&fm, &fs, &fa] {
+            if let Err(e) = apply_all(f, &all, false) {
+                return v(w, "C08", &format!("completion-{}", e.split(':').next().unwrap_or("")), format!("completing with the rest of the history: {}", e));
+            }
+        }
+        let (dm, sm, pm) = units_visible(&fm);
+        let (ds, ss, ps) = units_visible(&fs);
+        let (da, _sa, pa) = units_visible(&fa);
+        if pm || ps || pa {
+            return v(w, "C08", "pending-after-completion", format!("after completing with every update of the history something is still pending (merged {}, sequential {}, nested {})", pm, ps, pa));
+        }
+        if dm != ds || dm != da || !sv_eq(&sm, &ss) {
+            return v(w, "C08", "merge-vs-sequential-final", format!("after completing both with the rest of the history, merged-then-completed differs from sequential-then-completed (set {:?}, v{}):\n   merged     {}\n   sequential {}\n   nested     {}", set, if v2 { 2 } else { 1 }, dm, ds, da));
+        }
+    }
+    // diff_updates(u, sv) on a document whose vector is sv == apply(u); u = merge of the whole history
+    {
+        let whole: Vec<Vec<u8>> = w.msgs.iter().map(|m| if v2 { m.v2.clone() } else { m.v1.clone() }).collect();
+        let u = match merge(whole) {
+            Ok(Ok(m)) => m,
+            Err(p) => return v(w, "C08", &format!("panic:{}", p.split(' ').next().unwrap_or("")), format!("merge of whole history panicked: {}", p)),
+            Ok(Err(e)) => return v(w, "C08", "merge-error", format!("merge of whole history failed: {}", e)),
+        };
+        let (fx, fy) = match (clone_of(w, a, 400_011), clone_of(w, a, 400_012)) {
+            (Ok(x), Ok(y)) => (x, y),
+            _ => return Ok(()),
+        };
+        let sv = fx.doc.transact().state_vector();
+        let svb = if v2 { sv.encode_v2() } else { sv.encode_v1() };
+        let d = catch(|| if v2 { yrs::diff_updates_v2(&u, &svb) } else { yrs::diff_updates_v1(&u, &svb) });
+        let d = match d {
+            Err(p) => return v(w, "C08", &format!("panic:{}", p.split(' ').next().unwrap_or("")), format!("diff_updates panicked: {}", p)),
+            Ok(Err(e)) => return v(w, "C08", "diff-error", format!("diff_updates failed: {}", e)),
+            Ok(Ok(d)) => d,
+        };
+        if let Err(e) = fx.apply(&d, v2) {
+            return v(w, "C08", &format!("diff-{}", e.split(':').next().unwrap_or("")), format!("applying diff_updates output: {}", e));
+        }
+        if let Err(e) = fy.apply(&u, v2) {
+            return v(w, "C08", &format!("diff-{}", e.split(':').next().unwrap_or("")), format!("applying the undiffed update: {}", e));
+        }
+        let (dx, sx, px) = units_visible(&fx);
+        let (dy, sy, py) = units_visible(&fy);
+        w.cnt.inc("c08_diffs");
+        if dx != dy || !sv_eq(&sx, &sy) || px != py {
+            return v(w, "C08", "diff-vs-apply", format!("applying diff_updates_v{}(u, sv) to a document with vector sv = {:?} differs from applying u:\n   diffed {} {:?} pending {}\n   whole  {} {:?} pending {}", if v2 { 2 } else { 1 }, sv, dx, sx, px, dy, sy, py));
+        }
+        // encode_state_vector_from_update(u) for the gap-free whole-history update
+        let f0 = fresh(400_013);
+        if f0.apply(&u, v2).is_ok() && !f0.doc.transact().has_missing_updates() {
+            let want = f0.doc.transact().state_vector();
+            let got = catch(|| if v2 { yrs::encode_state_vector_from_update_v2(&u) } else { yrs::encode_state_vector_from_update_v1(&u) });
+            match got {
+                Err(p) => return v(w, "C08", &format!("panic:{}", p.split(' ').next().unwrap_or("")), format!("encode_state_vector_from_update panicked: {}", p)),
+                Ok(Err(e)) => return v(w, "C08", "sv-from-update-error", format!("{}", e)),
+                Ok(Ok(b)) => match if v2 { StateVector::decode_v2(&b) } else { StateVector::decode_v1(&b) } {
+                    Ok(g) => {
+                        w.cnt.inc("c08_sv_from_update");
+                        if !sv_eq(&g, &want) {
+                            return v(w, "C08", "sv-from-update", format!("encode_state_vector_from_update_v{} = {:?}, an empty document after applying the update has {:?}", if v2 { 2 } else { 1 }, g, want));
+                        }
+                    }
+                    Err(e) => return v(w, "C08", "sv-from-update-error", format!("result does not decode: {}", e)),
+                },
+            }
+        }
+    }
+    Ok(())
+}
+
+/// Per-replica monitors after every step.
+pub fn observe_ext(w: &mut World, r: usize) -> Result<(), Violation> {
+    if w.mon.c15 {
+        let (d, t) = (w.reps[r].dump(), w.ext.twins[r].dump());
+        w.cnt.inc("c15_twin_comparisons");
+        if d != t {
+            return v(w, "C15", "twin-differs", format!("r{} (gc {}) and its twin with the opposite gc setting, fed the same updates, differ:\n   {}\n   {}", w.reps[r].cfg.id, w.reps[r].cfg.gc, d, t));
+        }
+    }
+    if w.mon.c14 {
+        check_stickies(w, r)?;
+    }
+    if w.mon.c05 {
+        check_lww(w, r)?;
+    }
+    Ok(())
+}
+
+/// C05: necessary conditions of a causal last-writer-wins register, per key and replica state.
+fn check_lww(w: &mut World, r: usize) -> Result<(), Violation> {
+    use yrs::{Map, Xml};
+    let rep = &w.reps[r];
+    let txn = rep.doc.transact();
+    let integ = integrated_units(&yrs::verif::store_blocks(&txn));
+    let lo = rep.model.lower();
+    let mut shown: HashMap<(String, String), String> = HashMap::new();
+    let mut live: HashSet<String> = HashSet::new();
+    for (h, _) in live_types(&rep.roots, &txn) {
+        let c = format!("{:?}", h.id());
+        live.insert(c.clone());
+        match &h {
+            Handle::Map(m) => {
+                for (k, o) in m.iter(&txn) {
+                    shown.insert((c.clone(), k.to_string()), label_of_out(&o));
+                }
+            }
+            Handle::XElem(e) => {
+                for (k, o) in e.attributes(&txn) {
+                    shown.insert((c.clone(), k.to_string()), label_of_out(&o));
+                }
+            }
+            Handle::XText(e) => {
+                for (k, o) in e.attributes(&txn) {
+                    shown.insert((c.clone(), k.to_string()), label_of_out(&o));
+                }
+            }
+            _ => {}
+        }
+    }
+    drop(txn);
+    // subtree removal: a nested type whose item is deleted must be unreachable
+    for (cid, u) in w.ext.nested.iter() {
+        if rep.model.del.contains(u) && lo.contains(u) && live.contains(cid) {
+            let d = format!("nested type {} is still reachable on r{} although the item holding it was overwritten/removed there", cid, rep.cfg.id);
+            return viol("C05", "subtree-still-reachable", format!("{} ;; log tail: {}", d, w.tail(6)));
+        }
+    }
+    // group known writes per register
+    let mut regs: BTreeMap<(String, String), Vec<&LwwWrite>> = BTreeMap::new();
+    for wr in w.ext.writes.iter() {
+        // a write this replica holds only as a GC placeholder carries no information about what it
+        // overwrote (and is itself deleted): it cannot be expected to hide anything here
+        if integ.contains(&wr.uid) && live.contains(&wr.c) && !rep.model.gcform.contains(&wr.uid) {
+            regs.entry((wr.c.clone(), wr.key.clone())).or_default().push(wr);
+        }
+    }
+    let mut checks = 0u64;
+    let mut conc = false;
+    for ((c, key), known) in regs.iter() {
+        checks += 1;
+        let followed = |x: &LwwWrite| known.iter().any(|y| y.uid != x.uid && y.ctx.contains(&x.uid));
+        let maximal: Vec<&&LwwWrite> = known.iter().filter(|x| !followed(x)).collect();
+        if maximal.len() > 1 {
+            conc = true;
+        }
+        let deleted = |x: &LwwWrite| rep.model.del.contains(&x.uid);
+        let gone = |x: &LwwWrite| rep.model.gcform.contains(&x.uid);
+        match shown.get(&(c.clone(), key.clone())) {
+            Some(label) => {
+                let Some(wv) = known.iter().find(|x| &x.label == label) else {
+                    // value of a write this monitor did not record (prelim content of a nested map) - skip
+                    continue;
+                };
+                if followed(wv) {
+                    let by: Vec<String> = known.iter().filter(|y| y.ctx.contains(&wv.uid)).map(|y| y.label.clone()).collect();
+                    let d = format!("r{}: {}[{}] shows {} ({:?}) although the integrated write(s) {:?} had seen it (overwritten value resurfaced)", rep.cfg.id, c, key, label, wv.uid, by);
+                    return viol("C05", "resurfaced-overwritten", format!("{} ;; log tail: {}", d, w.tail(6)));
+                }
+                if deleted(wv) && lo.contains(&wv.uid) {
+                    let d = format!("r{}: {}[{}] shows {} ({:?}) although a removal of it has been received", rep.cfg.id, c, key, label, wv.uid);
+                    return viol("C05", "resurfaced-removed", format!("{} ;; log tail: {}", d, w.tail(6)));
+                }
+            }
+            None => {
+                // absent: some maximal write must have been removed
+                if !maximal.iter().any(|x| deleted(x) || gone(x)) && known.iter().all(|x| lo.contains(&x.uid)) {
+                    let d = format!("r{}: {}[{}] is absent although no removal of a maximal write was received; maximal writes {:?}", rep.cfg.id, c, key, maximal.iter().map(|x| (&x.label, x.uid)).collect::<Vec<_>>());
+                    return viol("C05", "lost-write", format!("{} ;; log tail: {}", d, w.tail(6)));
+                }
+            }
+        }
+        // a maximal write that follows every other known write and was not removed must be shown
+        for m in maximal.iter() {
+            let sole = known.iter().all(|y| y.uid == m.uid || m.ctx.contains(&y.uid));
+            if sole && !deleted(m) && !gone(m) && lo.contains(&m.uid) {
+                if shown.get(&(c.clone(), key.clone())) != Some(&m.label) {
+                    let d = format!("r{}: {}[{}] shows {:?} but the write {} ({:?}) follows every other received write and was not removed (a write concurrent with a removal must survive it)", rep.cfg.id, c, key, shown.get(&(c.clone(), key.clone())), m.label, m.uid);
+                    return viol("C05", "winner-not-shown", format!("{} ;; log tail: {}", d, w.tail(6)));
+                }
+            }
+        }
+    }
+    if conc {
+        w.ext.lww_concurrent = true;
+    }
+    w.cnt.add("c05_register_states_checked", checks);
+    Ok(())
+}
+
+pub fn finish_ext(w: &mut World) -> Result<(), Violation> {
+    if w.mon.c13 {
+        for k in 0..w.ext.snaps.len() {
+            restore_check(w, k)?;
+        }
+    }
+    if w.mon.c15 {
+        for r in 0..w.reps.len() {
+            rebuild_check(w, r)?;
+        }
+        // replicas with different gc settings converge in both directions
+        let d0 = w.reps[0].dump();
+        for r in 1..w.reps.len() {
+            let d = w.reps[r].dump();
+            if d != d0 {
+                return v(w, "C15", "diverge", format!("r{} (gc {}) and r{} (gc {}) differ after full delivery:\n   {}\n   {}", w.reps[0].cfg.id, w.reps[0].cfg.gc, w.reps[r].cfg.id, w.reps[r].cfg.gc, d0, d));
+            }
+        }
+    }
+    if w.mon.c05 || w.mon.c06 || w.mon.c14 {
+        // convergence of the final states (shared with C01) is part of these properties' statements
+        let d0 = w.reps[0].dump();
+        for r in 1..w.reps.len() {
+            let d = w.reps[r].dump();
+            if d != d0 {
+                return v(w, w.mon.prop, "diverge", format!("replicas differ after full delivery:\n   {}\n   {}", d0, d));
+            }
+        }
+    }
+    Ok(())
+}
+
+pub fn nontrivial_ext(prop: &str, w: &World) -> bool {
+    match prop {
+        "C05" => w.cnt.get("c05_register_states_checked") > 0 && w.ext.lww_concurrent,
+        "C06" => w.cnt.get("c06_exchanges") > 0,
+        "C07" => w.cnt.get("c07_changing_transactions") >= 3 && w.nonfifo,
+        "C08" => w.cnt.get("c08_comparisons") > 0,
+        "C13" => w.cnt.get("c13_restores") > 0,
+        "C14" => w.cnt.get("c14_resolutions_checked") > 0,
+        "C15" => w.cnt.get("c15_twin_comparisons") > 3 && w.cnt.get("op_seq_remove") + w.cnt.get("op_text_remove") + w.cnt.get("op_map_remove") + w.cnt.get("op_map_set") > 0,
+        _ => false,
+    }
 }
